@@ -213,7 +213,7 @@ def run_case(case, ctx):
         w["graph"] = {"n": n, "pos": spec["pos"], "edges": spec["edges"]}
         return violated(w, sig, True, sorted(cls))
 
-    net, ids, nodes, _e = G.build_network(spec)
+    net, ids, nodes, _e = G.build_network(spec, random.Random(case["ord"] + 1) if case["ord"] % 3 == 0 else None)
     pairs = [(s, t) for s in range(n) for t in range(n) if s != t]
     hrng = random.Random(case["ord"])
     hrng.shuffle(pairs)
